@@ -5,7 +5,7 @@ plausible and implausible entries x gender x precision x a custom error class ar
 check_performance_for_discipline; the returned string is tokenised and Trace_PerfCheck.tla (PerfCheck.tla on
 CodeText.tla - event classes decided by the automaton) checks the output grammar, the speed / record
 plausibility limits in integer arithmetic, the exception class and idempotence."""
-import re, random, itertools, traceback
+import os, json, re, random, itertools, traceback
 from multiprocessing import Pool
 from . import common, lang
 from .common import Report, Scratch, MachineryError
@@ -70,6 +70,31 @@ def _site(exc):
     return '?'
 
 
+_PINNED = None
+
+
+def record_for(code, g, live):
+    """The world record the 120 % limit refers to: the pinned table (refdata/field_records.json), never a table the module
+    under test has built (seed C12-h: the 'all' table aliased the men's one and overwrote the men's discus record at import).
+    A live entry a little above the pinned one (a new record, up to 2 %) is followed; events only the live table knows use it."""
+    global _PINNED
+    if _PINNED is None:
+        with open(os.path.join(common.VERIF, 'refdata', 'field_records.json')) as f:
+            d = json.load(f)
+        d['all'] = {k: max(d['m'][k], d['f'].get(k, 0)) for k in d['m']}
+        _PINNED = d
+    gg = (g or 'all').lower()
+    gg = gg if gg in ('m', 'f') else 'all'
+    ev = code.strip().upper()
+    pinned = _PINNED[gg].get(ev)
+    lv = (live.get(gg) or live.get('all') or {}).get(ev) if isinstance(live, dict) else None
+    if pinned is None:
+        return lv
+    if isinstance(lv, (int, float)) and pinned < lv <= pinned * 1.02:
+        return lv
+    return pinned
+
+
 def _job(job):
     common.use_repo()
     from athlib.utils import check_performance_for_discipline as cp, get_distance, field_event_record
@@ -117,8 +142,7 @@ def _job(job):
                 again = 'exc'
         # the record is looked up here, in the library's table, not by the function under test: whichever way the
         # discipline and the gender are spelt, the limit is the one of the event (men's / women's / larger of the two)
-        recs = RECORDS.get((g or 'all').lower(), RECORDS['all'])
-        rec = recs.get(code.strip().upper())
+        rec = record_for(code, g, RECORDS)
         numberlike = False
         if o == 'ok':
             try:
@@ -162,6 +186,20 @@ def run(tier):
         for c in wide:
             jobs.append((c, False, PROBES))
         rep.setcov("codes_probed", len(wide))
+        # field events around the 120 % limit of the world record, for every gender spelling: marks at 100 %, 119 %, the
+        # limit itself, 121 %, 123 %, 130 % of the pinned men's / women's / larger record
+        record_for('HJ', None, {})
+        nrec = 0
+        for ev in sorted(_PINNED['m']):
+            tl = []
+            for gsp, tbl in ((None, 'all'), ('all', 'all'), ('m', 'm'), ('M', 'm'), ('f', 'f'), ('F', 'f')):
+                r = _PINNED[tbl][ev]
+                for k in (1.0, 1.19, 1.2, 1.21, 1.23, 1.3):
+                    tl.append(('%.2f' % (r * k), gsp, None))
+                    nrec += 1
+            for sp in (ev, ev.lower(), ev.capitalize()):
+                jobs.append((sp, False, tl))
+        rep.setcov('record_limit_probes', nrec * 3)
         # spelling groups (letter case): one process serves all spellings of a discipline, in rotating and reversed order
         for c in CODES:
             grp = []
